@@ -155,13 +155,13 @@ def canon(ins, out):
 
 def subscripts(ctx):
     repo = ctx.repo
-    r = ctx.rule("R12.3", "generated subscripts: dot contracts the last index of A with the first of B, ddot the last two with the first two, keeping the other indices in order", min_instances=12)
+    r = ctx.rule("R12.3", "generated subscripts: dot contracts the last index of A with the first of B, ddot the last two with the first two, keeping the other indices in order, for every pair of tensor ranks 1..4", min_instances=25)
     fe = repo.cls(f"{LA}.FeArray")
     I = Interp(repo)
     for name, k in (("_dot_subscript", 1), ("_ddot_subscript", 2)):
         f = fe.methods[name]
-        for n1 in (1, 2, 4):
-            for n2 in (1, 2, 4):
+        for n1 in (1, 2, 3, 4):
+            for n2 in (1, 2, 3, 4):
                 if n1 < k or n2 < k:
                     continue
                 r.instance(fn=f.qualname)
@@ -559,9 +559,9 @@ def protocol_rule(ctx):
         run(f"[{L}] constant vector @ matrix field", lambda: cv @ m, contract(cv, False, m, True, 1), True, f"matmul:c12:{L}")
         run(f"[{L}] constant vector @ vector field", lambda: cv @ v, contract(cv, False, v, True, 1), True, f"matmul:c11:{L}")
         # every rank pair of dot / ddot, second operand a field or a constant tensor
-        T_by_rank = {1: T1, 2: T2, 4: T4}
-        for ra in (1, 2, 4):
-            for rb in (1, 2, 4):
+        T_by_rank = {1: T1, 2: T2, 3: (d, d, d), 4: T4}
+        for ra in (1, 2, 3, 4):
+            for rb in (1, 2, 3, 4):
                 x = _mk("x", (ne, npg) + T_by_rank[ra])
                 for fe_b in (True, False):
                     y = _mk("y", ((ne, npg) if fe_b else ()) + T_by_rank[rb], fe=fe_b)
